@@ -143,7 +143,19 @@ fn mutants(rng: &mut Rng, gp: &PragProblem, parsed: &PProblem, solution: &Value,
                 let l = s["tours"][ti]["stops"][si]["load"][0].as_i64().unwrap_or(0);
                 s["tours"][ti]["stops"][si]["load"][0] = json!(l + 1);
                 // site kind: a tour made of one single stop (departure, jobs and arrival at the depot) is its own class
-                let kind = if stops.len() == 1 { "load-misreported|single-stop-tour" } else { "load-misreported|regular-tour" };
+                // ... and so is a stop that belongs to no leg of a load interval in the checker's leg based reading: the leg
+                // which ENDS at a reload stop is not part of an interval, so a departure / reload stop directly followed by
+                // a reload stop (or ending the tour) is on no leg at all
+                let reload_stop = |i: usize| stops.get(i).is_some_and(|st| st["activities"][0]["type"].as_str() == Some("reload"));
+                let leg_before = si > 0 && !reload_stop(si);
+                let leg_after = si + 1 < stops.len() && !reload_stop(si + 1);
+                let kind = if stops.len() == 1 {
+                    "load-misreported|single-stop-tour"
+                } else if !leg_before && !leg_after {
+                    "load-misreported|stop-on-no-interval-leg"
+                } else {
+                    "load-misreported|regular-tour"
+                };
                 push(kind, format!("tour{ti}/stop{si}"), None, s, &mut out);
             }
             if si > 0 {
